@@ -3,6 +3,7 @@ package main
 import (
 	"fmt"
 	"go/constant"
+	"go/token"
 	"go/types"
 	"math/big"
 	"regexp"
@@ -1238,6 +1239,36 @@ func (env *SpecEnv) callExpr(e *SExpr) SVal {
 	case "concat":
 		x, y := env.termOrLoad(env.eval(e.Args[0])), env.termOrLoad(env.eval(e.Args[1]))
 		return SVal{T: mk(app("concat", x, y), sortBV(x.T.Bits+y.T.Bits))}
+	case "rangeslice":
+		// the slice a "for ... range" loop iterates over (it often has no name: range f())
+		if env.fr == nil || env.atBlock == nil {
+			env.fail("rangeslice() is only meaningful in a loop invariant")
+		}
+		for _, ins := range env.atBlock.Instrs {
+			phi, ok := ins.(*ssa.Phi)
+			if !ok {
+				break
+			}
+			if phi.Comment != "rangeindex" {
+				continue
+			}
+			// header: idx' = phi + 1; if idx' < len(X) ...
+			for _, hi := range env.atBlock.Instrs {
+				cmp, ok := hi.(*ssa.BinOp)
+				if !ok || cmp.Op != token.LSS {
+					continue
+				}
+				if call, ok := cmp.Y.(*ssa.Call); ok {
+					if b, ok := call.Call.Value.(*ssa.Builtin); ok && b.Name() == "len" && len(call.Call.Args) == 1 {
+						x := call.Call.Args[0]
+						v := env.vc.operand(env.fr, env.st, x)
+						return env.vc.sval(v, x.Type())
+					}
+				}
+			}
+		}
+		env.fail("rangeslice(): this loop does not range over a slice")
+		return SVal{}
 	case "rangeidx":
 		// the hidden index of the "for ... range" loop whose invariant is being evaluated
 		if env.fr == nil || env.atBlock == nil {
